@@ -15,7 +15,7 @@ func checkC11(c *Ctx) {
 		"the cache tables are accessed only under the mutex; eviction and insertion keep the map and the recency list in step."
 	c.NotDec = "collision resistance of SHA-256 and unambiguity of the concatenated key encoding; LRU order as such (irrelevant to verdicts given the clauses above)."
 	c.Assume = append(c.Assume, "SHA-256 is collision resistant; QuorumSignature.ToBytes and the ordered participant ids determine what the delegated verifier checks")
-	c.Expect("C11.1", 9)
+	c.Expect("C11.1", 12)
 
 	check := p.Method("security/cert", "Cache", "check")
 	insert := p.Method("security/cert", "Cache", "insert")
@@ -55,7 +55,7 @@ func checkC11(c *Ctx) {
 			c.Unresolved("C11.1", "Cache."+s.name, "no check/insert call")
 			continue
 		}
-		var missMsg, missSig, missSigners []string
+		var missMsg, missSig, missSigners, missCount []string
 		for _, site := range sites {
 			d := ic.deps(site.Common().Args[1])
 			hasAll := func(tags []string) bool {
@@ -89,6 +89,16 @@ func checkC11(c *Ctx) {
 			if !d["Participants("+sb+")"] {
 				missSigners = append(missSigners, where)
 			}
+			// accepted idioms: Participants().Len(), or len() of a value built from the participants
+			counted := false
+			for k := range d {
+				if (strings.HasPrefix(k, "Len(") || strings.HasPrefix(k, "len(")) && strings.Contains(k, "Participants("+sb+")") {
+					counted = true
+				}
+			}
+			if !counted {
+				missCount = append(missCount, where)
+			}
 		}
 		what := map[string]string{"Sign": "the message", "Verify": "the message", "BatchVerify": "every per-signer message and its signer id (hash result reaching the key)"}[s.name]
 		c.Check(len(missMsg) == 0, "C11.1/message", "Cache."+s.name, p.FuncPos(fn),
@@ -99,6 +109,9 @@ func checkC11(c *Ctx) {
 		c.Check(len(missSigners) == 0, "C11.1/signers", "Cache."+s.name, p.FuncPos(fn),
 			"every key incorporates the claimed signer set (signature.Participants())",
 			"cache key does not incorporate the claimed signer set: the signers are not part of ToBytes() for multi-signatures and BLS aggregates, so the same bytes with swapped or different signer ids hit the cache; "+join(missSigners))
+		c.Check(len(missCount) == 0, "C11.1/delimited", "Cache."+s.name, p.FuncPos(fn),
+			"every key incorporates the number of claimed signers, which separates the variable-length id list from the signature bytes",
+			"cache key does not incorporate the number of claimed signers (Participants().Len()): the id list runs into the signature bytes, so bytes moved between the two give a different claimed signer set the same key; "+join(missCount))
 
 		// C11.2 verdict discipline
 		if s.name != "Sign" {
